@@ -12,7 +12,7 @@ MANIFEST = dict(
     text="TLC checks SignCache.tla (two goroutines, every interleaving of the cache steps: EmittedValid holds with the mutex, is violated without it - negative control) "
          "and the sequential engine model; concurrent runs of a REAL deputy node (2 block inserters, 2 confirm inserters, a miner thread, a reader thread, the engine's own "
          "background goroutines) are recorded under chainLock and validated by TLC as a sequential history of the C03/C02 monitor; every emitted confirm is checked to be the "
-         "node's own signature over a block it holds; 98 gated two-goroutine schedules are forced on the real SignBlock; gated rounds make a mining request queue on chainLock behind an "
+         "node's own signature over a block it holds; 98 gated two-goroutine schedules are forced on the real SignBlock and 32 free-running goroutines sign 96000 hashes (every result checked); rounds with 5 deputies release the two encodings of ONE deputy's signature as two confirm packets at the same instant (the deputy must count once); gated rounds make a mining request queue on chainLock behind an "
          "InsertBlock that moves the head; FileQueue.tla (store read path vs. background writer and done-notice handler: ReadLatest) is model-checked and every transition of its state graph is "
          "realised on the real store by holding the writer at barrier records; thorough adds Go race-detector builds of the same runs.",
     note="Linearizability is judged on the lock-ordered sequence of engine calls (hook under chainLock, sequence number under the same lock). 'No unsynchronised access' is decided "
